@@ -64,10 +64,19 @@ func VH_C05_Continue() {
 	who := verifrt.IntRange("who", 0, n-1)
 	switch op {
 	case 0:
-		// keep the continue handler out of the picture: table closed => handler returns at once
-		te.table.Meta.Mode = CompetitionMode_MTT
+		// every mode (cash / CT tables take their own branch of the continue handler)
+		te.table.Meta.Mode = vhPick("cont.mode", []string{CompetitionMode_MTT, CompetitionMode_CT, CompetitionMode_Cash})
+		verifrt.Assume(vhInvT(te, M))
+		isIn := make([]bool, n)
+		for i, p := range te.table.State.PlayerStates {
+			isIn[i] = p.IsIn
+		}
 		err := te.continueGame([]*TablePlayerState{})
 		verifrt.Assert(err == nil, "continueGame succeeds")
+		verifrt.Assert(vhInvT(te, M), "after a hand, seat map, player list and seat manager still agree (same occupants, same seated-in flags)")
+		for i, p := range te.table.State.PlayerStates {
+			verifrt.Assert(p.IsIn == isIn[i], "ending a hand leaves every player's seated-in flag alone")
+		}
 		for _, p := range te.table.State.PlayerStates {
 			s := seat_manager.VHSeatOf(te.sm, p.Seat)
 			verifrt.Assert(s.Occ && s.Chips == (p.Bankroll > 0), "after a hand, has-chips in the seat manager equals bankroll > 0")
